@@ -1,9 +1,222 @@
+/-
+  QV.Driver.Zone — ops of group `zone` (C06, C20, C21).
+
+  One case = one whole session on one zone:
+
+      zone <apex> <class> <n|w> <step>;<step>;…
+
+  `<apex>`: wire hex; `<class>`: decimal; `n`/`w`: narrow / wide glue policy. Steps (fields
+  separated by `,`; names and RDATA as hex, `-` = empty):
+
+      a,<owner>,<type>,<class>,<ttl>,<rdata>   HashMapTreeZone::add (ttl: raw u32, through Ttl::from)
+      l,<name>,<type>,<u><s>                   Zone::lookup      (u = unchecked, s = search_below_cuts; 0/1)
+      d,<name>,<u><s>                          Zone::lookup_addrs
+      x,<name>,<u><s>                          Zone::lookup_all
+      n | r | s | t | v                        iter_by_node | iter_by_rrset | soa | ns | validate
+
+  Result: `ok <r1>;<r2>;…` (one entry per step). Everything that comes out of a hash map is
+  sorted; names are printed case-folded; the RDATAs of an RRset are printed sorted.
+  The spec column is `-` when some step is not constrained (an `unchecked` lookup of a name that
+  is not at or below the apex).
+
+  RDATA equality for de-duplication (`Rdata::equals`) is instantiated here by `rdataEquals`, a
+  direct transcription of src/rr/rdata/{mod,std13,helpers}.rs for the types the generators use
+  (A incl. class CH, NS/CNAME/PTR-like single names, SOA, MX; octet equality otherwise — MINFO
+  and SRV are not generated).
+-/
 import QV.Driver.Util
+import QV.Model.Zone
+import QV.Model.Validation
+import QV.Spec.Zone
+import QV.Spec.NameWire
+
+namespace QV.Zone
+open QV QV.NameL
+
+/-- `helpers::test_n_name_fields`: `some (some len)` all fields valid and equal, `some none`
+    definitely different, `none` fall back to bitwise comparison -/
+def testNNameFields (a b : Rdata) : Nat → Nat → Option (Option Nat)
+  | 0, off => some (some off)
+  | n + 1, off =>
+    match QV.Wire.parseUncompressed (a.drop off).toArray false, QV.Wire.parseUncompressed (b.drop off).toArray false with
+    | .ok pa, .ok pb =>
+      if pa.wire.map lowerU8 == pb.wire.map lowerU8 then testNNameFields a b n (off + pa.len) else some none
+    | .ok _, _ => some none
+    | _, .ok _ => some none
+    | _, _ => none
+
+/-- `helpers::names_equal` -/
+def namesEqual (a b : Rdata) : Bool :=
+  match testNNameFields a b 1 0 with
+  | some (some len) => if len == a.length && len == b.length then true else a == b
+  | some none => false
+  | none => a == b
+
+/-- `Rdata::equals(self, other, class, rr_type)` for the generated types -/
+def rdataEquals : Eqv := fun cls t a b =>
+  if t == 2 || t == 3 || t == 4 || t == 5 || t == 7 || t == 8 || t == 9 || t == 12 then namesEqual a b
+  else if t == 1 && cls == 3 then          -- equals_as_ch_a
+    if a.length != b.length then false
+    else match testNNameFields a b 1 0 with
+      | some (some len) => if len + 2 == a.length then a.drop len == b.drop len else a == b
+      | some none => false
+      | none => a == b
+  else if t == 6 then                      -- equals_as_soa
+    if a.length != b.length then false
+    else match testNNameFields a b 2 0 with
+      | some (some len) => if a.length - len != 20 then a == b else a.drop len == b.drop len
+      | some none => false
+      | none => a == b
+  else if t == 15 then                     -- equals_as_mx
+    if a.length != b.length then false
+    else if a.length > 2 then a.take 2 == b.take 2 && namesEqual (a.drop 2) (b.drop 2)
+    else a == b
+  else a == b
+
+end QV.Zone
 
 namespace QV.Driver
-open QV
+open QV QV.NameL QV.Zone QV.Spec.Zone
 
-/-- ops of group `zone` — stub (not built yet) -/
-def zoneHandler : Handler := fun _ _ => none
+/-- `Ttl::from(u32)` (src/rr/ttl.rs): values above `i32::MAX` are read as 0 -/
+def ttlFrom (raw : Nat) : Nat := if raw > 2147483647 then 0 else raw
+
+def sortStrs (l : List String) : List String := l.mergeSort (fun a b => decide (a ≤ b))
+
+def dedupSorted : List String → List String
+  | a :: b :: rest => if a = b then dedupSorted (b :: rest) else a :: dedupSorted (b :: rest)
+  | l => l
+
+def showName (n : Name) : String := hexOfList (toWire n)
+
+def showRds (rds : List Rdata) : String := ",".intercalate (sortStrs (rds.map hexOfList))
+
+def showRrset (s : Rrset) : String := s!"{s.ttl}:{showRds s.rdatas}"
+def showTyped (s : Rrset) : String := s!"{s.rtype}:{s.ttl}:{showRds s.rdatas}"
+def showORrset : Option Rrset → String
+  | some s => showRrset s
+  | none => "-"
+def showSos : Option Name → String
+  | some n => "sos=" ++ showName n
+  | none => "sos=-"
+def showTypedList (l : List Rrset) : String := "[" ++ "|".intercalate (sortStrs (l.map showTyped)) ++ "]"
+
+def showLookup : LookupResult → String
+  | .found s sos => s!"F {showRrset s} {showSos sos}"
+  | .cname s sos => s!"C {showRrset s} {showSos sos}"
+  | .referral c s => s!"R {showName c} {showRrset s}"
+  | .noRecords sos => s!"N {showSos sos}"
+  | .nxDomain => "X"
+  | .wrongZone => "W"
+
+def showAddrs : AddrsResult → String
+  | .found a aaaa sos => s!"F a={showORrset a} aaaa={showORrset aaaa} {showSos sos}"
+  | .referral c s => s!"R {showName c} {showRrset s}"
+  | .nxDomain => "X"
+  | .wrongZone => "W"
+
+def showAll : AllResult → String
+  | .found l sos => s!"F {showTypedList l} {showSos sos}"
+  | .referral c s => s!"R {showName c} {showRrset s}"
+  | .nxDomain => "X"
+  | .wrongZone => "W"
+
+def showO {α} (f : α → String) : Out Unit α → String
+  | .ok a => f a
+  | .err _ => "err"
+  | .panic => "panic"
+
+def showByNode (l : List (Name × List Rrset)) : String :=
+  " ".intercalate (sortStrs (l.map (fun p => showName p.1 ++ "=" ++ showTypedList p.2)))
+
+def showByRrset (l : List (Name × Rrset)) : String :=
+  " ".intercalate (sortStrs (l.map (fun p => showName p.1 ++ "/" ++ showTyped p.2)))
+
+def showIssue (isErr : Issue → Bool) (i : Issue) : String :=
+  (if isErr i then "E:" else "W:") ++ i.tag ++
+    (match i.name? with | some n => ":" ++ showName n | none => "")
+
+def showValidate (isErr : Issue → Bool) : Option (List Issue) → String
+  | none => "V!InvalidRdata"
+  | some l => "V " ++ ",".intercalate (dedupSorted (sortStrs (l.map (showIssue isErr))))
+
+/-- spec-side name extraction: the independent decoder of `QV.Spec.NameWire` -/
+def specNameOf : NameOf := fun rd =>
+  match QV.Spec.specDecodeUncompressed rd.toArray true with
+  | some (w, _) => ofWire w
+  | none => none
+
+private def nameArg (s : String) : Option Name := (unhex s).bind (fun b => parseAll b.toList)
+def optsArg (s : String) : Option Opts :=
+  match s.toList with
+  | [u, c] => match boolArg u.toString, boolArg c.toString with
+    | some a, some b => some ⟨a, b⟩
+    | _, _ => none
+  | _ => none
+
+/-- one step on model and spec: new states and the two result strings (`none` = bad step;
+    spec result `none` = unconstrained) -/
+def zoneStep (z : Zone) (sz : SZone) (step : String) : Option (Zone × SZone × String × Option String) :=
+  match step.splitOn "," with
+  | ["a", o, t, c, ttl, rd] =>
+    match nameArg o, natArg t, natArg c, natArg ttl, unhex rd with
+    | some owner, some t, some c, some ttl, some rd =>
+      let r : Rec := ⟨owner, t, c, ttlFrom ttl, rd.toList⟩
+      let (z', e) := addM rdataEquals z r
+      let ms := match e with | none => "ok" | some e => "e:" ++ e.toString
+      let (sz', ss) := match specAdd rdataEquals sz r with
+        | .ok s' => (s', "ok")
+        | .error e => (sz, "e:" ++ e.toString)
+      some (z', sz', ms, some ss)
+    | _, _, _, _, _ => none
+  | ["l", n, t, o] =>
+    match nameArg n, natArg t, optsArg o with
+    | some n, some t, some o =>
+      some (z, sz, showO showLookup (lookup z n t o),
+        if constrained sz n o then some (showLookup (specLookup sz n t o)) else none)
+    | _, _, _ => none
+  | ["d", n, o] =>
+    match nameArg n, optsArg o with
+    | some n, some o =>
+      some (z, sz, showO showAddrs (lookupAddrs z n o),
+        if constrained sz n o then some (showAddrs (specLookupAddrs sz n o)) else none)
+    | _, _ => none
+  | ["x", n, o] =>
+    match nameArg n, optsArg o with
+    | some n, some o =>
+      some (z, sz, showO showAll (lookupAll z n o),
+        if constrained sz n o then some (showAll (specLookupAll sz n o)) else none)
+    | _, _ => none
+  | ["n"] => some (z, sz, showByNode (iterByNode z), some (showByNode (specIterByNode sz)))
+  | ["r"] => some (z, sz, showByRrset (iterByRrset z), some (showByRrset (specIterByRrset sz)))
+  | ["s"] => some (z, sz, "S " ++ showORrset (soa z), some ("S " ++ showORrset (specSoa sz)))
+  | ["t"] => some (z, sz, "T " ++ showORrset (ns z), some ("T " ++ showORrset (specNs sz)))
+  | ["v"] => some (z, sz, showValidate Issue.isError (validate parseAll z),
+                   some (showValidate specIsError (specValidate specNameOf sz)))
+  | _ => none
+
+def zoneSession (z : Zone) (sz : SZone) (steps : List String) : Option (List String × Option (List String)) :=
+  let rec go (z : Zone) (sz : SZone) (ms : List String) (ss : Option (List String)) : List String → Option (List String × Option (List String))
+    | [] => some (ms.reverse, ss.map List.reverse)
+    | st :: rest =>
+      match zoneStep z sz st with
+      | none => none
+      | some (z', sz', m, s) =>
+        go z' sz' (m :: ms) (match ss, s with | some l, some x => some (x :: l) | _, _ => none) rest
+  go z sz [] (some []) steps
+
+/-- ops of group `zone` -/
+def zoneHandler : Handler := fun op args =>
+  match op, args with
+  | "zone", [apex, cls, glue, steps] =>
+    match nameArg apex, natArg cls, (if glue = "n" then some GluePolicy.narrow else if glue = "w" then some GluePolicy.wide else none) with
+    | some apex, some cls, some glue =>
+      match zoneSession (Zone.new apex cls glue) ⟨apex, cls, glue, []⟩ (steps.splitOn ";") with
+      | some (ms, ss) =>
+        some ("ok " ++ ";".intercalate ms,
+              match ss with | some l => "ok " ++ ";".intercalate l | none => "-")
+      | none => some bad
+    | _, _, _ => some bad
+  | _, _ => none
 
 end QV.Driver
